@@ -164,12 +164,19 @@ def run(facts, tier):
         if f["crate"] not in ("xml_dom", "xml_info") or f.get("derived"):
             continue
         st1["functions"] += 1
+        import idxproof
+        exact = idxproof.boundary_sites(facts, f)       # byte-indexed calls that together compute a character boundary (A11)
         for bi, t in facts.mir_calls(f):
             c = t.get("callee")
             if not c:
                 continue
             n = facts.callee_name(c)
             if any(rx.search(n) for rx in BYTE_INDEXED):
+                if t.get("ln") in exact:
+                    st1["instances"] += 1
+                    st1["character_exact_idiom"] = st1.get("character_exact_idiom", 0) + 1
+                    res.oblige(1, True)
+                    continue
                 st1["instances"] += 1
                 res.oblige(1, False)
                 res.add(Finding("C16-1", "%s|%s" % (f["path"], n.split("::")[-1]),
